@@ -302,7 +302,11 @@ Section WriteFile.
     destruct (F2 f eq_refl) as (c & Hc & Hin).
     unfold f_write. rewrite Hc. destruct (hd_name f); [nope|].
     destruct (file_of s1 c) as [[[[d k] i] m]|] eqn:Ef; [|nope].
-    destruct (negb (has (hd_mode f) OpenWrite)); [nope|]. cbn [fst snd f_heap with_heap]. intros _.
+    destruct (negb (has (hd_mode f) OpenWrite)); [nope|].
+    destruct data as [|b0 data0].
+    { (* writing no byte changes nothing: only OpenFile's effect remains *)
+      cbn [fst snd]. intros _. exact F1. }
+    cbn [fst snd f_heap with_heap]. intros _.
     assert (Hg : get (f_heap s1) c = Some (NFile d k i m)).
     { unfold file_of in Ef. destruct (get (f_heap s1) c) as [[]|]; try discriminate. now injection Ef as -> -> -> ->. }
     match goal with |- frame _ (upd _ c ?x) _ _ =>
